@@ -54,6 +54,19 @@ CLAIMED = {
         "technique": "Coq proof (commuting steps, induction over prefixes) + generated rule tables + differential correspondence on real traces",
         "design": "DESIGN.md section 6, C13",
     },
+    "C14": {
+        "text": "Theorems over a small-step interleaving model of InMemorySemantivaTransport (heap of queue objects, channel table, per-thread program counters; "
+                "schedules are arbitrary lists of thread ids, any number of publishers, subscribers and messages): conservation (appended = held + reachable queued as "
+                "multisets, no duplicate identities), exactly-once at the end, no foreign channel ever delivered, per-(publisher, channel) FIFO, a completed drain empties every "
+                "matching channel. They need atomic queue creation and locked append/popleft: both are generated facts read from in_memory.py with hard reflexivity obligations "
+                "(the creation race was repaired by a fix commit; C14_refuted_when keeps the losing schedule for the unrepaired variant). Closed under the global context. "
+                "Tie = trace validation: real thread schedules are enumerated up to a preemption bound with a deterministic sys.settrace baton scheduler, mapped to model events by "
+                "AST anchors, replayed in Coq and compared with the real delivered lists and leftovers.",
+        "note": "Model coq/Model/Transport.v; interleaving granularity = source line of in_memory.py plus the defaultdict factory call; preemption inside a single C call is assumed "
+                "not to occur; fnmatch modelled for exact and prefix-star patterns only; termination of a drain is not proved.",
+        "technique": "Coq invariant proofs over all schedules + generated structural facts + trace validation of real schedules (deterministic scheduler)",
+        "design": "DESIGN.md section 6, C14",
+    },
     "C11": {
         "text": "Theorems over a rose-tree model of _SafeVisitor instantiated with tables regenerated from safe_eval.py on every run: "
                 "acceptance implies every node at any depth/field position (call keywords included) is on the documented whitelist, every call "
